@@ -197,7 +197,16 @@ func TestC16(t *testing.T) {
 	for i := 0; i < nh && !run.Stop(); i++ {
 		cr := r.Fork()
 		cur := kcfg{key: newKey(cr), salt: optBytes(cr, "fsalt"), info: optBytes(cr, "finfo")}
-		f := &encrypt.Filter{Wrapper: cryp.NewWrapper(cur.key, "k0"), HmacSalt: cur.salt, HmacInfo: cur.info}
+		// key ids do not identify key material: in a third of the histories every wrapper carries the same id
+		fixedID := cr.Intn(3) == 0
+		kid := func(s string) string {
+			if fixedID {
+				return "audit-events"
+			}
+			return s
+		}
+		curW := cryp.NewWrapper(cur.key, kid("k0"))
+		f := &encrypt.Filter{Wrapper: curW, HmacSalt: cur.salt, HmacInfo: cur.info}
 		var hist []string
 		oldKeys := [][]byte{}
 		run.Progress("C16 sequential history %d", i)
@@ -210,7 +219,8 @@ func TestC16(t *testing.T) {
 				if cr.Bool() {
 					oldKeys = append(oldKeys, cur.key)
 					cur.key = newKey(cr)
-					opts = append(opts, encrypt.WithWrapper(cryp.NewWrapper(cur.key, fmt.Sprintf("k%d", s))))
+					curW = cryp.NewWrapper(cur.key, kid(fmt.Sprintf("k%d", s)))
+					opts = append(opts, encrypt.WithWrapper(curW))
 					desc += "wrapper "
 				}
 				if cr.Bool() {
@@ -235,8 +245,13 @@ func TestC16(t *testing.T) {
 				if cr.Bool() {
 					oldKeys = append(oldKeys, cur.key)
 					cur.key = newKey(cr)
-					rp.w = cryp.NewWrapper(cur.key, fmt.Sprintf("p%d", s))
+					curW = cryp.NewWrapper(cur.key, kid(fmt.Sprintf("p%d", s)))
+					rp.w = curW
 					desc += "wrapper "
+				} else if cr.Intn(3) == 0 {
+					// the payload names the wrapper that is in force already (only salt / info change, if anything)
+					rp.w = curW
+					desc += "same-wrapper "
 				}
 				if v := optBytes(cr, "psalt"); v != nil && cr.Bool() {
 					cur.salt, rp.salt = v, append(make([]byte, 0, len(v)), v...)
